@@ -58,6 +58,12 @@ pub trait Point<M: Math>: Sized {
     fn energy_error(&self) -> (r: F) ensures r.r() == self.pview().energy - self.pview().e0;
     /// (added for unit `chain`) the untransformed position of the point
     fn position(&self) -> (r: &M::Vector) ensures M::vv(r) == self.pview().x;
+    /// the rest of the real `Point` read API (src/dynamics/hamiltonian.rs), offered so that an edit which starts
+    /// using it stays decidable; unit `leapfrog` proves the same statements for `TransformedPoint`
+    fn gradient(&self) -> (r: &M::Vector) ensures M::vv(r) == self.pview().g;
+    fn index_in_trajectory(&self) -> (r: i64) ensures r as int == self.pview().idx;
+    fn energy(&self) -> (r: F) ensures r.r() == self.pview().energy;
+    fn logp(&self) -> (r: F) ensures r.r() == self.pview().logp;
 }
 
 #[verifier::external_body]
@@ -70,6 +76,9 @@ impl<M: Math, P: Point<M>> State<M, P> {
     pub fn point(&self) -> (r: &P) ensures r.pview() == self.view() { unimplemented!() }
     #[verifier::external_body]
     pub fn index_in_trajectory(&self) -> (r: i64) ensures r as int == self.view().idx { unimplemented!() }
+    /// `State::energy` of src/dynamics/state.rs (= point().energy(); proved in unit statepool)
+    #[verifier::external_body]
+    pub fn energy(&self) -> (r: F) ensures r.r() == self.view().energy { unimplemented!() }
 }
 impl<M: Math, P: Point<M>> Clone for State<M, P> {
     #[verifier::external_body]
